@@ -10,7 +10,7 @@
    parso's tokens (never Guard) on every generated input. *)
 From Coq Require Import List NArith Bool Lia.
 Import ListNotations.
-Require Import Regex RegexFacts Tok TokFacts TokTiles TokShape Engine Lines Tables Model.
+Require Import Regex RegexFacts Tok TokFacts TokTiles TokShape Engine Lines Prefix PrefixTiles Tables Model.
 Open Scope N_scope.
 
 Lemma pseudo_shapes_ok : forallb (fun '(v, c) => shape12 (pseudo c)) colls = true.
@@ -96,6 +96,20 @@ Example C09_shape_example :
   | Tok.Ok toks => count is_indent toks = 2%nat /\ count is_dedent toks = 2%nat
   | Tok.Err _ => False end.
 Proof. vm_compute. split; reflexivity. Qed.
+
+(* ---------------- split_prefix tiles the prefix ----------------
+   For the regenerated prefix regex (shape obligation below): whenever split_prefix returns parts, the concatenation
+   of spacing ++ value over the parts is the prefix.  (Model guard: an empty value is matched only at the end of the
+   prefix; `split_prefix never fails` is NOT a theorem - known finding F2 is a counterexample.) *)
+Lemma prefix_shape_ok : shape12 prefix_re = true.
+Proof. vm_compute. reflexivity. Qed.
+Theorem C09_split_prefix_tiles : forall p line col parts,
+  split_prefix_m p line col = Prefix.POk parts -> parts_text parts = p.
+Proof. intros p line col parts H. unfold split_prefix_m in H. eapply split_prefix_tiles; [exact prefix_shape_ok|exact H]. Qed.
+Print Assumptions C09_split_prefix_tiles.
+Example C09_split_prefix_example :
+  match split_prefix_m [32;35;120;10;92;10;32;12;32] 3 0 with Prefix.POk parts => length parts = 5%nat | _ => False end.
+Proof. vm_compute. reflexivity. Qed.
 
 (* the supporting regex facts *)
 Theorem C09_match_soundness : forall r i rest cs k o, m r i rest cs k = Some o -> called r i rest cs k o.
